@@ -133,6 +133,9 @@ fn phases_bc(env: &Env, rec: &mut Rec) {
         .collect();
     inputs.extend(extra);
     inputs.extend(["".to_string(), "Alice".into(), "alice".into(), "ALICE".into(), "alic\u{0}".into(), "\u{FF21}lice".into()]);
+    // probes that a specialised fast path is likely to get wrong: ASCII controls inside ASCII names, DEL,
+    // a lone space, a trailing newline, a backtick, a fullwidth digit
+    inputs.extend(["ab\u{7F}".to_string(), "\u{7F}".into(), "guy\u{1F}brush".into(), "a b".into(), "ab\n".into(), "a`b".into(), "\u{FF11}23".into(), "Abc\u{7F}Def".into()]);
     // long inputs (memo thresholds) and inputs that differ in one code point only
     {
         let p = env.pools();
@@ -277,6 +280,41 @@ fn phases_bc(env: &Env, rec: &mut Rec) {
     for k in 0..nc {
         let threads = [16usize, 32, 64, 16][k % 4];
         run_child(threads, 1 + k % 2, env.seed.wrapping_mul(131).wrapping_add(k as u64), "C", rec);
+    }
+    // Phase E ("regimes"): single-threaded processes that run long homogeneous workloads (all ASCII, ASCII with
+    // spaces, Latin-1, CJK, right-to-left, errors only, long ASCII - in a seeded order), each followed by the
+    // whole case list: behaviour that changes after N calls of a kind (adaptive fast paths, counters) shows here
+    let ne = env.n(2, 24);
+    for k in 0..ne {
+        let seed = env.seed.wrapping_mul(313).wrapping_add(k as u64);
+        let out = Command::new(&racer)
+            .args(["regime", "--cases"])
+            .arg(&cf)
+            .arg("--expect")
+            .arg(&bf)
+            .args(["--seed", &seed.to_string(), "--per-regime", if k % 2 == 0 { "3000" } else { "20000" }])
+            .output();
+        if let Ok(o) = out {
+            let text = String::from_utf8_lossy(&o.stdout).to_string();
+            for l in text.lines() {
+                if let Some(m) = l.strip_prefix("MISMATCH ") {
+                    rec.violation(
+                        "result-depends-on-call-history",
+                        Witness {
+                            op: format!("static call in phase E (regimes, seed={})", seed),
+                            case: m.to_string(),
+                            expected: m.split(" expected=").nth(1).and_then(|x| x.split(" observed=").next()).unwrap_or("").to_string(),
+                            observed: m.split(" observed=").nth(1).unwrap_or("").to_string(),
+                        },
+                    );
+                } else if l.starts_with("RACER regime") {
+                    let calls = l.split_whitespace().find_map(|w| w.strip_prefix("calls=")).and_then(|v| v.parse::<u64>().ok()).unwrap_or(0);
+                    total_calls += calls;
+                    rec.evals(calls);
+                    rec.nontrivial("phaseE:regime-process", &(seed, "E"), || l.to_string());
+                }
+            }
+        }
     }
     // Phase D ("hammer"): few inputs, many rounds, many threads. The inputs come in pairs that differ in one
     // code point only, where the two code points are congruent modulo 64 / 256 / 1024 / 4096 / 65536 but have
